@@ -11,7 +11,7 @@ import time
 
 from .. import core, gen, obs
 
-OPTS = dict(types=True, calls=False, max_rules=4, max_lines=4, some_lets=True, keys_filters=True)
+OPTS = dict(types=True, calls=False, max_rules=4, max_lines=4, some_lets=True, keys_filters=True, interp=True)
 
 
 def status_map(ctx, text, docs, events=False):
